@@ -14,3 +14,5 @@ def run(ctx):
         nms.run(ctx, "C05", 80 if q else 800)
         from .. import g72x
         g72x.run(ctx, "C05", 120 if q else 1200)
+        from .. import gsm
+        gsm.run(ctx, "C05", 80 if q else 800)
